@@ -46,10 +46,11 @@ VARIABLES rcvd,      \* cells whose bytes the receiver has stored
           readerDone,\* the reader has seen EOF or a stream error (not shutdown)
           connErr,   \* transport error raised towards the connection ("none" if none)
           limit,     \* receive limit in force
-          pend       \* blocked Read / Peek call
+          pend,      \* blocked Read / Peek call
+          dupReset   \* more than one RESET_STREAM(_AT) frame was accepted
 
 vars == <<rcvd, readPos, hi, final, rreset, reliable, rcode, cancelled, ccode, shutdown,
-          finished, eofSeen, readerDone, connErr, limit, pend>>
+          finished, eofSeen, readerDone, connErr, limit, pend, dupReset>>
 
 Max(a, b) == IF a >= b THEN a ELSE b
 Min(a, b) == IF a <= b THEN a ELSE b
@@ -59,7 +60,7 @@ Init ==
   /\ rreset = FALSE /\ reliable = 0 /\ rcode = None
   /\ cancelled = FALSE /\ ccode = None /\ shutdown = FALSE /\ finished = FALSE
   /\ eofSeen = FALSE /\ readerDone = FALSE /\ connErr = "none" /\ limit = Limit0
-  /\ pend = NoPend
+  /\ pend = NoPend /\ dupReset = FALSE
 
 \* start of a fresh execution (used by the trace specification for concatenated traces)
 ResetAll ==
@@ -67,7 +68,7 @@ ResetAll ==
   /\ rreset' = FALSE /\ reliable' = 0 /\ rcode' = None
   /\ cancelled' = FALSE /\ ccode' = None /\ shutdown' = FALSE /\ finished' = FALSE
   /\ eofSeen' = FALSE /\ readerDone' = FALSE /\ connErr' = "none" /\ limit' = Limit0
-  /\ pend' = NoPend
+  /\ pend' = NoPend /\ dupReset' = FALSE
 
 ----------------------------------------------------------------------------
 (* Derived quantities *)
@@ -121,7 +122,7 @@ Push(a, b, fin, res) ==
      ELSE /\ connErr' = res
           /\ UNCHANGED <<rcvd, hi, final>>
   /\ UNCHANGED <<readPos, rreset, reliable, rcode, cancelled, ccode, shutdown, finished,
-                 eofSeen, readerDone, limit, pend>>
+                 eofSeen, readerDone, limit, pend, dupReset>>
 
 ResetResults(fp) ==
   LET end == Off[fp]
@@ -146,6 +147,7 @@ ResetStream(fp, rp, code, res) ==
                   /\ UNCHANGED connErr
              ELSE /\ connErr' = res
                   /\ UNCHANGED <<hi, final, reliable, rreset, rcode>>
+          /\ dupReset' = (dupReset \/ (res = "ok" /\ rreset))
           /\ UNCHANGED <<rcvd, readPos, cancelled, ccode, shutdown, finished, eofSeen, readerDone, limit, pend>>
 
 \* a MAX_STREAM_DATA was generated: the limit in force is the running maximum
@@ -153,7 +155,7 @@ WindowUpdate(v) ==
   /\ Impl = "stream"
   /\ limit' = Max(limit, v)
   /\ UNCHANGED <<rcvd, readPos, hi, final, rreset, reliable, rcode, cancelled, ccode, shutdown,
-                 finished, eofSeen, readerDone, connErr, pend>>
+                 finished, eofSeen, readerDone, connErr, pend, dupReset>>
 
 ----------------------------------------------------------------------------
 (* Local calls *)
@@ -164,13 +166,13 @@ CancelRead(code) ==
      THEN UNCHANGED <<cancelled, ccode>>
      ELSE cancelled' = TRUE /\ ccode' = code
   /\ UNCHANGED <<rcvd, readPos, hi, final, rreset, reliable, rcode, shutdown, finished,
-                 eofSeen, readerDone, connErr, limit, pend>>
+                 eofSeen, readerDone, connErr, limit, pend, dupReset>>
 
 CloseForShutdown ==
   /\ Impl = "stream"
   /\ shutdown' = TRUE
   /\ UNCHANGED <<rcvd, readPos, hi, final, rreset, reliable, rcode, cancelled, ccode, finished,
-                 eofSeen, readerDone, connErr, limit, pend>>
+                 eofSeen, readerDone, connErr, limit, pend, dupReset>>
 
 \* What a Read(k) may report: n bytes (content checked by the executor) and an outcome.
 ReadOutcome(k, n, res) ==
@@ -185,9 +187,12 @@ ReadOutcome(k, n, res) ==
        [] OTHER             -> FALSE
 
 \* A Read may block only when there is nothing at all to report.
-\* (Deviation kept outside C03: CancelRead does not wake a call that is blocked on a stream whose
-\*  RESET_STREAM_AT is recorded but not yet effective - the call then returns with the next frame.)
-MayBlockRead == Contig = 0 /\ ~AtFinal /\ (~cancelled \/ rreset) /\ ~ResetEff /\ ~shutdown
+\* Two deviations of the code are kept outside C03 (no listed property promises the wake-up; see DESIGN.md):
+\*  - CancelRead does not wake a call blocked on a stream whose RESET_STREAM_AT is recorded but not yet effective;
+\*  - a second RESET_STREAM_AT that lowers the reliable size (making the reset effective) does not wake it either.
+\* In both cases the call returns with the next frame that arrives.
+LostWake == rreset /\ (cancelled \/ dupReset)
+MayBlockRead == Contig = 0 /\ ~AtFinal /\ ~shutdown /\ ((~cancelled /\ ~ResetEff) \/ LostWake)
 
 ReadEffect(n, res) ==
   /\ readPos' = readPos + n
@@ -206,9 +211,9 @@ PeekOutcome(k, n, res) ==
        [] OTHER             -> FALSE
 
 MayBlockPeek(k) ==
-  /\ Contig < k /\ (~cancelled \/ rreset) /\ ~shutdown
-  /\ ~(final # None /\ readPos + Contig = final)
-  /\ ~(rreset /\ readPos + Contig >= reliable)
+  /\ Contig < k /\ ~shutdown
+  /\ ~(final # None /\ readPos + Contig = final /\ ~rreset)
+  /\ ((~cancelled /\ ~(rreset /\ readPos + Contig >= reliable)) \/ LostWake)
 
 PendBlockedOK == CASE pend.kind = "read" -> MayBlockRead
                    [] pend.kind = "peek" -> MayBlockPeek(pend.k)
@@ -224,7 +229,7 @@ Read(k, n, res) ==
           /\ pend' = [kind |-> "read", k |-> k]
           /\ UNCHANGED <<readPos, eofSeen, readerDone>>
      ELSE /\ ReadOutcome(k, n, res) /\ ReadEffect(n, res) /\ UNCHANGED pend
-  /\ UNCHANGED <<rcvd, hi, final, rreset, reliable, rcode, cancelled, ccode, shutdown, finished, connErr, limit>>
+  /\ UNCHANGED <<rcvd, hi, final, rreset, reliable, rcode, cancelled, ccode, shutdown, finished, connErr, limit, dupReset>>
 
 Peek(k, n, res) ==
   /\ Impl = "stream" /\ pend = NoPend /\ k >= 1
@@ -232,7 +237,7 @@ Peek(k, n, res) ==
      THEN MayBlockPeek(k) /\ n = 0 /\ pend' = [kind |-> "peek", k |-> k]
      ELSE PeekOutcome(k, n, res) /\ UNCHANGED pend
   /\ UNCHANGED <<rcvd, readPos, hi, final, rreset, reliable, rcode, cancelled, ccode, shutdown,
-                 finished, eofSeen, readerDone, connErr, limit>>
+                 finished, eofSeen, readerDone, connErr, limit, dupReset>>
 
 \* the blocked call returns
 Done(n, res) ==
@@ -241,7 +246,7 @@ Done(n, res) ==
      THEN ReadOutcome(pend.k, n, res) /\ ReadEffect(n, res)
      ELSE PeekOutcome(pend.k, n, res) /\ UNCHANGED <<readPos, eofSeen, readerDone>>
   /\ pend' = NoPend
-  /\ UNCHANGED <<rcvd, hi, final, rreset, reliable, rcode, cancelled, ccode, shutdown, finished, connErr, limit>>
+  /\ UNCHANGED <<rcvd, hi, final, rreset, reliable, rcode, cancelled, ccode, shutdown, finished, connErr, limit, dupReset>>
 
 \* frame sorter / crypto stream: Pop returns the next contiguous piece or nothing
 Pop(n, res) ==
@@ -249,7 +254,7 @@ Pop(n, res) ==
   /\ IF res = "none" THEN Contig = 0 /\ n = 0 ELSE res = "ok" /\ n \in 1..Contig
   /\ readPos' = readPos + n
   /\ UNCHANGED <<rcvd, hi, final, rreset, reliable, rcode, cancelled, ccode, shutdown, finished,
-                 eofSeen, readerDone, connErr, limit, pend>>
+                 eofSeen, readerDone, connErr, limit, pend, dupReset>>
 
 HasMoreData == \E c \in rcvd : Off[c+1] > readPos
 
@@ -259,7 +264,7 @@ Finish(res) ==
      THEN res = "PROTOCOL_VIOLATION" /\ connErr' = res /\ UNCHANGED finished
      ELSE res = "ok" /\ finished' = TRUE /\ UNCHANGED connErr
   /\ UNCHANGED <<rcvd, readPos, hi, final, rreset, reliable, rcode, cancelled, ccode, shutdown,
-                 eofSeen, readerDone, limit, pend>>
+                 eofSeen, readerDone, limit, pend, dupReset>>
 
 ----------------------------------------------------------------------------
 Results == {"ok", "eof", "reset", "cancelled", "shutdown", "blocked", "none",
